@@ -25,7 +25,7 @@ N21 = [l + a for l in T.LETTERS for a in ("", "#", "b")]
 def shards(tier, seed):
     out = []
     for L in T.LETTERS:
-        out.append({"name": "inverse-" + L, "kind": "inverse", "letter": L, "weight": 8, "after_history": L in "C",
+        out.append({"name": "inverse-" + L, "kind": "inverse", "letter": L, "weight": 8, "after_history": L in "C", "before_history": L in "D",
                     "acc": [0, 1, -1] if tier == "quick" else [0, 1, -1, 2, -2]})
     for L in T.LETTERS:
         out.append({"name": "triples-" + L, "kind": "triples", "letter": L, "weight": 5})
@@ -91,6 +91,9 @@ def run(shard, ctx):
                 for k in range(len(chord)):
                     rot = chord[k:] + chord[:k]
                     w = {"built_from": r + sh, "rotation": k, "notes": rot}
+                    if (k + len(r) + len(sh)) % 2:
+                        # sometimes the flagged calls come first (answers must not depend on which call came first)
+                        both_forms(ctx, rot, dict(w, flags={"no_inversions": True}), no_inversions=True)
                     res = both_forms(ctx, rot, w)
                     ctx.case(("inv", tuple(rot)), nontrivial=(k > 0 or len(r) > 1))
                     cnt += 1
@@ -115,7 +118,14 @@ def run(shard, ctx):
                     check_names_constructible(ctx, short, w)
                     for flags in ({"no_inversions": True}, {"no_polychords": True},
                                   {"no_inversions": True, "no_polychords": True}):
-                        both_forms(ctx, rot, dict(w, flags=flags), **flags)
+                        rf = both_forms(ctx, rot, dict(w, flags=flags), **flags)
+                        if rf is not None and flags == {"no_polychords": True}:
+                            # leaving polychord names out does not stop the chord itself from being recognised
+                            okf = any(isinstance(nm, str) and "|" not in nm and ctx.call(chords.from_shorthand, nm) == ("ok", chord) for nm in rf[0])
+                            ctx.check("inverse: shorthand answer contains a name that rebuilds the root-position chord", okf,
+                                      dict(w, flags=flags), "a name rebuilding %s" % chord, rf[0], mechanism="unrecognised-no_polychords:" + sh)
+                            ctx.check("forms: without polychords no polychord name is returned", not any("|" in nm for nm in rf[0] if isinstance(nm, str)),
+                                      dict(w, flags=flags), None, rf[0], mechanism="polychord-despite-flag")
         ctx.note_exhaustive("shorthands (>= 3 notes) x roots %s%s x every rotation x both forms" % (shard["letter"], shard["acc"]), cnt)
         ctx.sample({"notes": ["E", "G", "C"], "short": chords.determine(["E", "G", "C"], True),
                     "long": chords.determine(["E", "G", "C"])})
